@@ -731,6 +731,9 @@ func (s *Store[K, V]) sinkWrite(item WriteBufItem[K, V]) {
 
 		// update entry policy weight
 		entry.policyWeight += item.costChange
+		// the copy in the secondary cache, if any, holds the old value now:
+		// the entry must be written back when it is evicted
+		entry.flag.SetFromNVM(false)
 
 		if item.rechedule {
 			if entry.expire.Load() != 0 {
